@@ -83,6 +83,13 @@ class Types:
 class _Old(ast.NodeTransformer):
     def __init__(self): self.inside = 0
     def visit_Call(self, n):
+        # logical connectives are lazy in the specification language: implies(a, b) must not evaluate b when a is false
+        if isinstance(n.func, ast.Name) and n.func.id == 'implies' and len(n.args) == 2:
+            a, b = self.visit(n.args[0]), self.visit(n.args[1])
+            return ast.BoolOp(op=ast.Or(), values=[ast.UnaryOp(op=ast.Not(), operand=a), b])
+        if isinstance(n.func, ast.Name) and n.func.id == 'ite' and len(n.args) == 3:
+            c, a, b = (self.visit(x) for x in n.args)
+            return ast.IfExp(test=c, body=a, orelse=b)
         if isinstance(n.func, ast.Name) and n.func.id == 'old' and not self.inside:
             self.inside += 1
             body = self.visit(n.args[0]); self.inside -= 1
